@@ -182,6 +182,8 @@ static void setup_inputs(void) {
 	if (strcmp(size_cls, "order2") == 0) { rnd_bn(B[0], 256); bn_copy(B[1], n); }
 	if (strcmp(size_cls, "order3") == 0) { bn_dbl(B[0], n); bn_add_dig(B[1], n, 1); }
 	if (strcmp(size_cls, "negord") == 0) { bn_neg(B[0], n); bn_set_dig(B[1], 1); bn_neg(B[1], B[1]); }
+	/* negative scalars far longer than the order (and one of the length of the order) */
+	if (strcmp(size_cls, "negbig") == 0) { for (int i = 0; i < NB; i++) { if (i != 2 && i != 4) { rnd_bn(B[i], (i & 1) ? 256 : 640 + 64 * (size_t)i); bn_neg(B[i], B[i]); } } }
 	if (strcmp(size_cls, "zdig") == 0) {
 		for (int i = 0; i < NB; i++) { rnd_bn(B[i], 256); if (B[i]->used >= 4) { B[i]->dp[1] = 0; B[i]->dp[2] = (i & 1) ? 0 : B[i]->dp[2] << 40; } }
 	}
@@ -214,7 +216,7 @@ static void setup_inputs(void) {
 	}
 	memset(msg, 0, sizeof(msg));
 	msg_len = 1 + (B[5]->dp[0] % 200);
-	rand_bytes(mx(msg_len), msg_len);
+	rand_bytes(msg, msg_len);
 	bn_free(n);
 }
 
@@ -301,6 +303,17 @@ OP(bn_cap_read_bin) {
 	HEAP_BN(h);
 	for (long i = 0; i < len; i++) in[i] = (uint8_t)(0x80 | (i * 37 + (long)B[6]->dp[0]));
 	W(bn_read_bin(h, in, (size_t)len));
+	out_int(len); out_int(h->used <= h->alloc);
+	HEAP_BN_FREE(h);
+	sim_sys_free(in);
+}
+OP(bn_cap_read_raw) {
+	static const long offs[8] = { -1, 0, 1, 1, 2, 8, 9, 40 };
+	long len = (long)RLC_BN_SIZE + offs[B[6]->dp[0] % 8];
+	dig_t *in = (dig_t *)sim_sys_malloc((size_t)len * sizeof(dig_t));
+	HEAP_BN(h);
+	for (long i = 0; i < len; i++) in[i] = (dig_t)0x8000000000000001ULL * (dig_t)(i + 1) + B[6]->dp[0];
+	W(bn_read_raw(h, in, (size_t)len));
 	out_int(len); out_int(h->used <= h->alloc);
 	HEAP_BN_FREE(h);
 	sim_sys_free(in);
@@ -1141,7 +1154,7 @@ static const op_t ops[] = {
 	E(bn_mxp_monty, 0), E(bn_mxp_dig, 0), E(bn_mxp_sim, 0), E(bn_srt, 0), E(bn_gcd_basic, 0), E(bn_gcd_lehme, 0),
 	E(bn_gcd_binar, 0), E(bn_gcd_ext_basic, 0), E(bn_gcd_ext_lehme, 0), E(bn_gcd_ext_binar, 0), E(bn_gcd_ext_mid, 0), E(bn_gcd_swapped, 0),
 	E(bn_lcm, 0), E(bn_smb_leg, 0), E(bn_smb_jac, 0), E(bn_is_prime, 0), E(bn_is_prime_solov, 0),
-	E(bn_set_bit_above, 0), E(bn_gen_prime_small, 0), E(bn_factor, 0), E(bn_rec_naf, 0), E(bn_rec_win, 0), E(bn_rec_slw, 0), E(bn_rec_reg, 0),
+	E(bn_set_bit_above, 0), E(bn_cap_read_raw, 0), E(bn_gen_prime_small, 0), E(bn_factor, 0), E(bn_rec_naf, 0), E(bn_rec_win, 0), E(bn_rec_slw, 0), E(bn_rec_reg, 0),
 	E(bn_rec_jsf, 0), E(bn_rec_glv, 0), E(bn_read_str, 0), E(bn_write_str, 0), E(bn_read_bin, 0), E(bn_lag, 0),
 	E(bn_evl, 0), E(bn_rand_mod, 0), E(bn_mod_inv_sim, 0), E(bn_mxp_sim_lot, 0),
 	E(fp_mul, 0), E(fp_sqr, 0), E(fp_inv_basic, 0), E(fp_inv_binar, 0), E(fp_inv_monty, 0), E(fp_inv_exgcd, 0),
